@@ -12,7 +12,7 @@ def _cache_path(name):
     return os.path.join(vlib.ensure(os.path.join(vlib.WORK, "mc")), "%s.%s.json" % (name, vlib.spec_hash()))
 
 
-def run_config(name, module=MC_MODULE, workers=None, heap="24g", timeout=3000, force=False, extra=None, expect_violation=None):
+def run_config(name, module=MC_MODULE, workers=None, heap="24g", timeout=10800, force=False, extra=None, expect_violation=None):
     """run TLC on spec/<name>.cfg ; returns dict(states, distinct, depth, ok, violated, secs, cached)"""
     cp = _cache_path(name)
     if os.path.exists(cp) and not force:
